@@ -135,6 +135,17 @@ func (d *c17Daemon) interestBody(name enc.Name, cbp bool) []byte {
 	return body
 }
 
+// sendHinted injects an Interest for name that carries a forwarding hint (delegation name hint).
+func (d *c17Daemon) sendHinted(f *c17Face, name, hint enc.Name) {
+	d.nonce++
+	body := name.Bytes()
+	body = append(body, tlvwalk.TLV(0x12, nil)...)
+	body = append(body, tlvwalk.TLV(0x1e, hint.Bytes())...)
+	body = append(body, tlvwalk.TLV(0x0a, []byte{byte(d.nonce >> 24), byte(d.nonce >> 16), byte(d.nonce >> 8), byte(d.nonce)})...)
+	body = append(body, tlvwalk.TLV(0x0c, []byte{0x27, 0x10})...)
+	face.VerifRecv(f.ls, tlvwalk.TLV(5, body))
+}
+
 // send builds an Interest and injects it on face f; returns the Interest name.
 func (d *c17Daemon) send(f *c17Face, name enc.Name, cbp bool) enc.Name {
 	body := d.interestBody(name, cbp)
@@ -559,7 +570,7 @@ func (d *c17Daemon) step(id string, r *rand.Rand) bool {
 		a := &mgmt.ControlArgs{Name: n, Cost: u64p(7), Origin: u64p(65)}
 		cp := c17Params(a)
 		cls := ""
-		switch r.Intn(5) {
+		switch r.Intn(6) {
 		case 0:
 			cls = "localhost-prefix-from-non-local-face"
 			nl := d.nonLocal(r)
@@ -594,6 +605,16 @@ func (d *c17Daemon) step(id string, r *rand.Rand) bool {
 			cls = "localhop-rib-while-disabled"
 			d.log = append(d.log, fmt.Sprintf("%s: face %d sends /localhop/nfd/rib/register %s (allow_localhop=false)", id, d.peer.id, n))
 			d.command(d.peer, "/localhop/nfd", "rib", "register", &cp, 40*time.Millisecond)
+		case 5:
+			// the command name is under /localhost/nfd, a forwarding hint names the link-local
+			// management prefix (or the local one): the scope of the NAME decides, not the hint's
+			cls = "localhost-prefix-from-non-local-face-with-forwarding-hint"
+			hint, _ := enc.NameFromStr([]string{"/localhop/nfd", "/localhost/nfd", "/localhop"}[r.Intn(3)])
+			cn, _ := enc.NameFromStr("/localhost/nfd/rib/register")
+			cn = append(cn, cp)
+			d.log = append(d.log, fmt.Sprintf("%s: NON-LOCAL face %d sends /localhost/nfd/rib/register %s with forwarding hint %s", id, d.peer.id, n, hint))
+			d.sendHinted(d.peer, cn, hint)
+			time.Sleep(40 * time.Millisecond)
 		case 3:
 			cls = "other-prefix"
 			d.log = append(d.log, fmt.Sprintf("%s: face %d sends /nfd/rib/register", id, d.app.id))
